@@ -23,6 +23,7 @@ class TState:
         self.waiting_on = None
         self.error = None
         self.thread = None
+        self.stuck = False
 
 
 class Sched:
@@ -36,6 +37,7 @@ class Sched:
         self.log = []                # history events appended by harness operations, in global order
         self.spawned_during_run = []
         self.deadlock = ""
+        self.uncontrolled_blocking = False
 
     # ---- called from controlled threads
     def me(self):
@@ -138,16 +140,38 @@ class Sched:
         while True:
             with self.cv:
                 waited = 0
-                while any(t.status in ("running", "new") for t in self.threads.values()):
-                    if not self.cv.wait(timeout=5):
+                while any(t.status in ("running", "new") and not t.stuck for t in self.threads.values()):
+                    if not self.cv.wait(timeout=0.25):
                         waited += 1
-                        if waited >= 4:
-                            raise Deadlock("a thread neither parks nor finishes (blocked on a primitive the harness does not control): %s"
-                                           % [(t.name, t.status, t.label) for t in self.threads.values()])
+                        busy = [t for t in self.threads.values() if t.status in ("running", "new") and not t.stuck]
+                        others = [t for t in self.threads.values() if t.status == "parked"]
+                        if others and waited >= 2:
+                            # a thread neither parks nor finishes: it waits on a primitive the harness does not control (a real
+                            # lock held by a parked thread, ...).  Let the others run; it will park by itself once it gets on.
+                            for t in busy:
+                                t.stuck = True
+                            self.uncontrolled_blocking = True
+                        elif waited >= 80:
+                            self.deadlock = "threads neither park nor finish: %s" % [(t.name, t.status, t.label) for t in busy]
+                            return
+                for t in self.threads.values():
+                    if t.stuck and t.status not in ("running", "new"):
+                        t.stuck = False
                 live = [t for t in self.threads.values() if t.status != "done"]
                 if not live:
                     return
                 runnable = [t.name for t in live if t.status == "parked"]
+                if not runnable and any(t.stuck for t in live):
+                    # only uncontrolled waiters are left: give them time, then call it a deadlock
+                    if self.cv.wait(timeout=0.25):
+                        continue
+                    idle_rounds = getattr(self, "_idle_rounds", 0) + 1
+                    self._idle_rounds = idle_rounds
+                    if idle_rounds < 40:
+                        continue
+                    self.deadlock = "threads blocked on uncontrolled primitives for ever: %s" % [(t.name, t.label) for t in live]
+                    return
+                self._idle_rounds = 0
                 if not runnable:
                     # every live thread waits for something nobody will provide: an outcome of the code under test, not an error
                     self.deadlock = "all live threads blocked: %s" % [(t.name, str(t.waiting_on)[:60]) for t in live]
